@@ -472,6 +472,34 @@ func originOf(v ssa.Value, bind map[ssa.Value]ssa.Value, depth int) string {
 		return fmt.Sprintf("alloc:%s@%s", x.Comment, x.Parent().Name())
 	case *ssa.UnOp:
 		if x.Op.String() == "*" {
+			// a field of a struct built here and assigned once (a set-up struct): what was assigned
+			if fa, ok := x.X.(*ssa.FieldAddr); ok {
+				base := fa.X
+				for i := 0; i < 4; i++ {
+					if b, ok := bind[base]; ok {
+						base = b
+					} else {
+						break
+					}
+				}
+				if al, ok := base.(*ssa.Alloc); ok && al.Referrers() != nil {
+					var vals []ssa.Value
+					for _, r := range *al.Referrers() {
+						fa2, ok := r.(*ssa.FieldAddr)
+						if !ok || fa2.Field != fa.Field || fa2.Referrers() == nil {
+							continue
+						}
+						for _, r2 := range *fa2.Referrers() {
+							if st, ok := r2.(*ssa.Store); ok && st.Addr == ssa.Value(fa2) {
+								vals = append(vals, st.Val)
+							}
+						}
+					}
+					if len(vals) == 1 {
+						return originOf(vals[0], bind, depth+1)
+					}
+				}
+			}
 			o := originOf(x.X, bind, depth+1)
 			if strings.HasPrefix(o, "&") {
 				return o[1:]
@@ -1729,12 +1757,24 @@ func (c *Ctx) ruleJ3() {
 			cons := fmt.Sprintf("%s→head-fetch#length-never-zero#%d", fnKey(f), k)
 			k++
 			// the cell that holds the limit, and the instruction of its owner that leads to the fetch
-			cell, anchor := c.limitCell(lenVal, call, 0)
-			if cell == nil {
-				return // a shape this rule does not follow (J2 still looks at the value)
-			}
 			if !c.isControlFn(f) {
 				n++
+			}
+			c.j3Decided = nil
+			cell, anchor := c.limitCell(lenVal, call, 0)
+			if cell == nil && c.j3Decided != nil {
+				if *c.j3Decided {
+					c.ok("J3", cons, call.Pos(), "the limit is a parameter of this helper and every caller hands it a value that is never zero")
+				} else {
+					c.bad("J3", cons, call.Pos(), "a caller hands this helper a limit that may be 0 and it reaches the head fetch: the fetcher reads a length of 0 as one entry per head (and the trim reads it as no limit), so a load that should list everything returns nil with only the newest entry visible")
+				}
+				return
+			}
+			if cell == nil {
+				// a shape this rule does not follow (the limit travels in a struct): J2 still
+				// looks at the value; nothing is claimed here
+				c.ok("J3", cons, call.Pos(), "the local that holds the limit could not be singled out (it travels in a struct): not judged by this rule, J2 looks at how the value is computed")
+				return
 			}
 			g := cell.Parent()
 			isNorm := func(in ssa.Instruction) bool {
@@ -1816,6 +1856,10 @@ func (c *Ctx) limitCell(v ssa.Value, use ssa.Instruction, depth int) (*ssa.Alloc
 				if c2, a2 := c.limitCell(p, use, depth+1); c2 != nil {
 					return c2, a2
 				}
+				if ok, seen := c.j3Values[p]; seen {
+					c.j3Decided = &ok
+					return nil, nil
+				}
 			}
 		}
 		return x, use
@@ -1870,6 +1914,18 @@ func (c *Ctx) limitCell(v ssa.Value, use ssa.Instruction, depth int) (*ssa.Alloc
 					a = ld.X
 				}
 				out, anchor = c.limitCell(a, cs, depth+1)
+				if out == nil {
+					// a plain value, not a local whose address is taken: judged where it is handed over
+					if c.j3Values == nil {
+						c.j3Values = map[*ssa.Parameter]bool{}
+					}
+					ok, seen := c.j3Values[x]
+					now := c.limitNormalised(cs.Common().Args[idx], cs.Block(), 0)
+					if !seen {
+						ok = true
+					}
+					c.j3Values[x] = ok && now
+				}
 			})
 		}
 		return out, anchor
